@@ -349,7 +349,10 @@ PROPS = {
                            "runtime behaviour: observed on the binary (bounded latency, every response present), not a theorem"],
     },
     "C08": {
-        "rule": "texts over {ASCII, 2-/3-/4-byte chars, CR, LF, CRLF}; per text: 3x IDX/SPECIDX (get_insertion_index: impl vs model "
+        "binary": True,
+        "binary_cases": binchecks.c08_cases,
+        "rule": "BINARY: initialize with five `general.positionEncodings` offers: the announced positionEncoding is absent or utf-16 (the "
+                "server counts UTF-16 units) and prepareRename behind 2-/3-/4-byte characters answers the UTF-16 range. texts over {ASCII, 2-/3-/4-byte chars, CR, LF, CRLF}; per text: 3x IDX/SPECIDX (get_insertion_index: impl vs model "
                 "vs independent line-table spec LspPos) at valid and overshooting positions, POS (as_position), PROPRT (index -> "
                 "position -> index on every char boundary), PROPTOK (every token range fed back addresses the token), CHG/SPECCHG "
                 "(1-4 notifications of 1-3 ranged/full-text changes: server text vs model vs client semantics), SPECDOCTEXT (every "
